@@ -56,6 +56,78 @@ def bundle_vs_single(case):
     return None
 
 
+def _frame(cip, ctx8=b'bundle\0\0', session=0x1234):
+    import struct
+    pay = struct.pack('<IHHHHHH', 0, 0, 2, 0, 0, 0xb2, len(cip)) + bytes(cip)
+    return struct.pack('<HHII', 0x6f, len(pay), session, 0) + ctx8 + struct.pack('<I', 0) + pay
+
+
+def client_view(frames):
+    """What cpppo's own client hands its caller for a stream of SendRRData reply frames: [(status, value)] per reply, in
+    order, through connector.collect (the client-side unbundling).  A throw-away local server replays the frames."""
+    import socket, struct, threading
+    from cpppo.server.enip import client
+    ls = socket.socket(); ls.bind(('127.0.0.1', 0)); ls.listen(1)
+    port = ls.getsockname()[1]
+
+    def serve():
+        c, _ = ls.accept()
+        try:
+            got = b''
+            while len(got) < 28:
+                d = c.recv(28 - len(got))
+                if not d:
+                    return
+                got += d
+            c.sendall(struct.pack('<HHII', 0x65, 4, 0x1234, 0) + got[12:20] + struct.pack('<IHH', 0, 1, 0) + b''.join(frames))
+            c.shutdown(socket.SHUT_WR)
+            c.settimeout(5)
+            while c.recv(4096):
+                pass
+        except OSError:
+            pass
+        finally:
+            c.close()
+    t = threading.Thread(target=serve, daemon=True); t.start()
+    out = []
+    try:
+        conn = client.connector(host='127.0.0.1', port=port, timeout=5)
+        try:
+            with conn:
+                for _, rpy, sts, val in conn.collect(timeout=5):
+                    out.append((sts if isinstance(sts, int) else (sts[0], list(sts[1])),
+                                [repr(x) for x in val] if hasattr(val, '__iter__') and not isinstance(val, (str, bytes)) else val))
+        finally:
+            conn.close()
+    finally:
+        ls.close(); t.join(5)
+    return out
+
+
+def client_unbundling(case):
+    """Second oracle, on the client half of the library: the results connector.collect yields for a bundle reply are the
+    results it yields for the members' replies received one frame each."""
+    maxb, tags, reqs = case
+    flat = []
+    for r in reqs:
+        flat += r[1] if r[0] == 'multi' else [r]
+    (obs_b, _), (obs_s, _) = L.run_impl(case), L.run_impl((maxb, tags, flat))
+    if any(b is None for b, _ in obs_b) or any(s is None for s, _ in obs_s):
+        return None
+    if any(r[0] == 'multi' and L.split_bundle(b) is None for r, (b, _) in zip(reqs, obs_b)):
+        return None
+    try:
+        vb = client_view([_frame(b) for b, _ in obs_b])
+        vs = client_view([_frame(s) for s, _ in obs_s])
+    except Exception as e:
+        return 0, 'the client could not unbundle the replies: %s %s' % (type(e).__name__, str(e)[:200])
+    if vb != vs:
+        k = next((i for i, (x, y) in enumerate(zip(vb, vs)) if x != y), min(len(vb), len(vs)))
+        return k, ('client result %d is %r when the replies arrive in bundles but %r when they arrive one per frame (%d vs %d results)'
+                   % (k, vb[k] if k < len(vb) else None, vs[k] if k < len(vs) else None, len(vb), len(vs)))
+    return None
+
+
 STD_ATTRS = [(1, 1, a) for a in range(1, 8)] + [(0xF5, 1, a) for a in (1, 2, 3, 4, 6)] + [(2, 1, 1), (0xAC, 1, 1), (0xAC, 1, 3), (0x77, 1, 1), (1, 1, 99)]
 
 
@@ -88,6 +160,16 @@ def run(ctx):
             ctx.violation(dict(case=L.describe_case(c), at_request=res[0]), res[1])
             break
     ctx.coverage['oracle_only_bundles_with_standard_objects'] = nstd
+    ncli = 0
+    from props import enip_common as E
+    E.quiet()
+    for c in gen(ctx)[:(300 if ctx.thorough else 60)]:
+        ncli += 1
+        res = client_unbundling(c)
+        if res is not None:
+            ctx.violation(dict(case=L.describe_case(c), at_result=res[0], layer='client.connector.collect'), res[1])
+            break
+    ctx.coverage['client_unbundling_histories'] = ncli
     L.logix_check(ctx, 'C07', gen(ctx), extra_oracle=bundle_vs_single,
                   rule='seeded histories of 1-4 bundles (1-9 members mixing Read/Write Tag [Fragmented] and Get/Set Attribute Single, ~40% '
                        'invalid) interleaved with single requests, over random tag configurations; each history is also executed with every bundle '
@@ -97,6 +179,6 @@ def run(ctx):
 
 def replay(ctx, rep):
     case = L.case_from_description(rep['witness']['case'])
-    res = L.check_history(case, 'C07') or bundle_vs_single(case)
+    res = L.check_history(case, 'C07') or bundle_vs_single(case) or client_unbundling(case)
     print('property C07 on the implementation:', res or 'holds')
     return 1 if res else 0
